@@ -13,7 +13,8 @@ import os
 
 import vlib
 
-FILES = ["TestNifFile_Optimize_LE_to_SE.nif", "TestNifFile_Skinned_OB.nif", "TestNifFile_Static_SE.nif", "TestNifFile_Skinned_FO4.nif",
+FILES = ["TestNifFile_Optimize_LE_to_SE.nif", "TestNifFile_Skinned_OB.nif", "TestNifFile_Static_FO4_132.nif", "TestNifFile_Skinned_FO4.nif",
+         "TestNifFile_Static_SE.nif",
          "TestNifFile_Furniture_Col_SE.nif", "TestNifFile_Animated_LE.nif"]
 
 
